@@ -1478,7 +1478,52 @@ def modular_part(out, prop, tier):
                             'declaration': decls[0].source().strip(), 'backend': 'kani'})
 
 
+def regex_decls():
+    """String newtypes with a `regex` validator: outside Verus (statics, the regex crate) and outside
+    CBMC's reach; explored concretely only (bounded, labelled)."""
+    out = []
+    lit = Bound(src='"^[a-z]+[0-9]?$"', spec='', ref='"^[a-z]+[0-9]?$"')
+    st = Bound(src='RE_STATIC', spec='', ref='"^[a-z]+[0-9]?$"')
+    T, L = Sanitizer('trim'), Sanitizer('lowercase')
+    ne, mx = Validator('not_empty'), Validator('len_char_max', aux.lit_bound(3))
+    der = ['Debug', 'TryFrom', 'FromStr', 'AsRef']
+    out.append(mk('re_lit', 'string', 'String', validators=[Validator('regex', lit)], derives=der))
+    out.append(mk('re_tr_lo_ne_re_max', 'string', 'String', sanitizers=[T, L], validators=[ne, Validator('regex', lit), mx], derives=der))
+    out.append(mk('re_tr_max_re_ne', 'string', 'String', sanitizers=[T], validators=[mx, Validator('regex', st), ne], aux=['RE_STATIC'], derives=der))
+    for d in out:
+        d.verus = False
+        d.kani = True
+    return out
+
+
+def concrete_only_part(out, prop, tier):
+    from . import witness
+    from .main import PROP_ENTRIES
+    decls = regex_decls()
+    n = 0
+    for d in decls:
+        try:
+            wit, log = witness.run_witness(d, features=('regex',))
+        except Exception as e:
+            wit, log = None, repr(e)
+        if wit is None:
+            out.undecided.append('%s: concrete exploration did not build: %s' % (d.id, (log or '')[-300:]))
+            continue
+        n += 1
+        bad = [w for w in wit if w.get('entry') in PROP_ENTRIES.get(prop, ())]
+        if bad:
+            out.failed.append({'key': '%s::%s(bounded exploration)' % (d.id, bad[0]['entry']), 'backend': 'concrete exploration (bounded)',
+                               'message': 'real code disagrees with the reference on a concrete input', 'detail': json.dumps(bad[:3]),
+                               'decl': d.id, 'decl_obj': d, 'witness': bad})
+    out.bounded.append('`regex` validators: %d String declarations explored concretely only (all strings up to 3 chars over the special alphabet + longer samples); not a proof, not counted' % n)
+
+
 def kani_part(out, prop, tier, seed):
+    if prop in ('C01', 'C07', 'C03'):
+        try:
+            concrete_only_part(out, prop, tier)
+        except Undecided as e:
+            out.undecided.append(str(e)[:300])
     if prop == 'C01':
         try:
             modular_part(out, prop, tier)
